@@ -101,7 +101,19 @@ impl Parser for Constant {
 impl Parser for IntConstant {
     fn parse(input: &str) -> IResult<&str, IntConstant> {
         alt((
-            preceded(tag("-"), map(IntConstant::parse, |d| IntConstant(-d.0))),
+            // i64::MIN has no positive counterpart to negate: read the sign with the digits
+            map_res(preceded(tag("-0x"), hex_digit1), |d: &str| {
+                i64::from_str_radix(&format!("-{d}"), 16).map(IntConstant)
+            }),
+            map_res(recognize(tuple((tag("-"), digit1))), |d: &str| {
+                d.parse::<i64>().map(IntConstant)
+            }),
+            preceded(
+                tag("-"),
+                map_res(IntConstant::parse, |d| {
+                    d.0.checked_neg().map(IntConstant).ok_or("integer overflow")
+                }),
+            ),
             preceded(
                 tag("0x"),
                 map_res(hex_digit1, |d| i64::from_str_radix(d, 16).map(IntConstant)),
